@@ -305,5 +305,56 @@ def run(run):
         if not ok:
             raise tlc.TLCFailure("binding self-test failed: " + msg)
         run.extra["binding_selftest"] = "adding 1 to one logged error counter is rejected at that line"
+    # --- (D) the repository's OWN tests as a trace source: every BER / BLER call they make is recorded (pytest plugin, nothing in the repo is
+    #         edited) and the whole history is validated by Trace_MetricsRepo - the tests exercise the code, the specification supplies the assertions
+    if not run.only:
+        repo_test_traces(run)
     run.assumptions += ["inputs are exact 0/1 tensors so thresholding is unambiguous", "blocks are contiguous segments of each batch item"]
     run.exhaustive = True
+
+
+def repo_test_traces(run):
+    import json
+    import os
+    import subprocess
+    import tempfile
+    from . import core
+    fd, out = tempfile.mkstemp(prefix="kvrepotrace_", suffix=".ndjson")
+    os.close(fd)
+    try:
+        env = dict(os.environ, KV_TRACE_OUT=out, PYTHONPATH=core.ROOT + os.pathsep + core.REPO)
+        cmd = ["/venv/bin/python", "-m", "pytest", "-q", "-p", "no:cacheprovider", "-p", "kv.repotrace_plugin", "tests/metrics/test_signal_metrics.py", "tests/metrics/signal", "-q"]
+        pr = subprocess.run(cmd, cwd=core.REPO, env=env, stdout=subprocess.PIPE, stderr=subprocess.STDOUT, text=True, timeout=1200)
+        evs = [json.loads(ln) for ln in open(out)] if os.path.getsize(out) else []
+    finally:
+        try:
+            os.unlink(out)
+        except OSError:
+            pass
+    if len(evs) < 50:
+        raise tlc.TLCFailure("repository tests produced only %d metric events (pytest: %s)" % (len(evs), pr.stdout.strip().splitlines()[-1:] if pr.stdout else "?"))
+    nobj = sum(1 for e in evs if e["ev"] == "New")
+    for e in evs:
+        run.case(("repo-tests", e["tid"]), nontrivial=e["ev"] in ("Update", "Forward", "Compute"))
+    mism = tv.validate(run, "Trace_MetricsRepo", evs, name="TV repository tests (BER / BLER calls)", timeout=900)
+    run.extra["repository_test_trace"] = {"events": len(evs), "metric_objects": nobj, "untracked_calls": sum(1 for e in evs if e.get("tracked") is False),
+                                          "pytest": (pr.stdout.strip().splitlines() or ["?"])[-1][:120]}
+    seen = set()
+    for (t, line, clause) in mism:
+        e = evs[line - 1]
+        kind = next((x["cls"] for x in evs[:line] if x["ev"] == "New" and x["oid"] == e["oid"]), "BlockErrorRate")
+        if (kind, clause) in seen:
+            continue
+        seen.add((kind, clause))
+        lo = max(0, line - 6)
+        run.violate(kind, clause, {"form": "repository_tests"}, {"event": {k: (v if k != "mask" else str(v)[:200]) for k, v in e.items()},
+                                                                 "preceding_events_of_the_run": [x["ev"] for x in evs[lo:line - 1]]},
+                    "call recorded from the repository's own tests rejected by Trace_MetricsRepo")
+    if not mism:
+        def corrupt(ev2):
+            i = next(i for i, e in enumerate(ev2) if e["ev"] == "Update" and e["tracked"] and e["c_err"] >= 0)
+            ev2[i]["c_err"] += 1
+            return i + 1
+        ok, msg = tv.selftest_binding("Trace_MetricsRepo", evs, corrupt, "accumulated_error_count_is_exact")
+        if not ok:
+            raise tlc.TLCFailure("binding self-test (repository trace) failed: " + msg)
